@@ -91,6 +91,13 @@ Theorem C10_keep_best_semantics : forall self_score outs rs,
 Proof. exact keep_best_semantics. Qed.
 Print Assumptions C10_keep_best_semantics.
 
+(* the winner's attributes are handed to self as a deep copy: whatever the history, self shares no object with a
+   model of the returned dict afterwards (mutating a returned candidate cannot change self) *)
+Theorem C10_keep_best_copy_independent : forall self_score outs keep,
+  g_aliases Gen_gridsearch keep (g_run Gen_gridsearch self_score outs) = false.
+Proof. exact keep_best_copy_independent. Qed.
+Print Assumptions C10_keep_best_copy_independent.
+
 (* every call / store in gridsearch whose receiver is `self` is either a read or sits under `if not self._is_fitted`
    / `if keep_best`: for a fitted model and keep_best=False nothing writes to self ... *)
 Theorem C10_keep_best_false_pure : forall e, In e (k_effects Gen_gridsearch) -> e_recv e = RSelf ->
@@ -111,6 +118,7 @@ Print Assumptions C10_poisson_frontend_forwards.
 
 Theorem C10_skeleton_flags : Gen_combine_matches_model = true /\ k_grid_product Gen_gridsearch = true /\
   k_cartesian_lists Gen_gridsearch = true /\ k_skip_valueerror Gen_gridsearch = true /\ k_init_inf Gen_gridsearch = true /\
-  k_return_scores_zip Gen_gridsearch = true /\ k_keep_copies_best Gen_gridsearch = true.
+  k_return_scores_zip Gen_gridsearch = true /\ k_keep_copies_best Gen_gridsearch = true /\
+  k_keep_deepcopies Gen_gridsearch = true.
 Proof. exact skeleton_flags. Qed.
 Print Assumptions C10_skeleton_flags.
